@@ -1,5 +1,10 @@
 /* LD_PRELOAD shim: the simulator's clock seam for native code.
  *
+ * Two kinds of native readers are covered: gettimeofday() (NLopt), and clock_gettime(CLOCK_REALTIME) / time()
+ * (datetime.now(), pandas.Timestamp.now(), numpy.datetime64("now"), date.today() ...), so that "today" is a
+ * schedule decision as well: the harness adds whole days, months or years to ctl[3] between two operations.
+ * CLOCK_MONOTONIC and friends are left alone (timeouts of the harness itself use them).
+ *
  * NLopt (the optimiser behind the daily/billing fit) reads the wall clock with gettimeofday() for its
  * maxtime stop criterion (and getpid()/time for seeding stochastic algorithms).  Python-level patching
  * cannot reach that, so the simulated clock is injected here: the harness writes into verif_clock_ctl
@@ -15,6 +20,7 @@
 #include <dlfcn.h>
 #include <sys/time.h>
 #include <stddef.h>
+#include <time.h>
 
 volatile long long verif_clock_ctl[4] = {0, 0, 0, 0};
 
@@ -39,4 +45,41 @@ int gettimeofday(struct timeval *restrict tv, void *restrict tz)
         }
     }
     return r;
+}
+
+typedef int (*cgt_t)(clockid_t, struct timespec *);
+static cgt_t real_cgt = NULL;
+
+int clock_gettime(clockid_t id, struct timespec *ts)
+{
+    if (!real_cgt)
+        real_cgt = (cgt_t)dlsym(RTLD_NEXT, "clock_gettime");
+    int r = real_cgt(id, ts);
+    if (r == 0 && ts && id == CLOCK_REALTIME && verif_clock_ctl[3] != 0) {
+        long long ns = (long long)ts->tv_sec * 1000000000LL + (long long)ts->tv_nsec + verif_clock_ctl[3] * 1000LL;
+        long long sec = ns / 1000000000LL;
+        long long rem = ns % 1000000000LL;
+        if (rem < 0) { rem += 1000000000LL; sec -= 1; }
+        ts->tv_sec = (time_t)sec;
+        ts->tv_nsec = (long)rem;
+    }
+    return r;
+}
+
+typedef time_t (*time_fn_t)(time_t *);
+static time_fn_t real_time = NULL;
+
+time_t time(time_t *t)
+{
+    if (!real_time)
+        real_time = (time_fn_t)dlsym(RTLD_NEXT, "time");
+    time_t v = real_time(NULL);
+    if (verif_clock_ctl[3] != 0) {
+        long long us = verif_clock_ctl[3];
+        long long s = us / 1000000LL;
+        if (us % 1000000LL < 0) s -= 1;
+        v += (time_t)s;
+    }
+    if (t) *t = v;
+    return v;
 }
